@@ -1,4 +1,5 @@
 use std::collections::hash_map::DefaultHasher;
+use std::fmt::Write;
 use std::hash::{
     Hash,
     Hasher,
@@ -158,6 +159,15 @@ fn hash_int_function(
     Ok(Value::String(short.to_string()))
 }
 
+/// Longest prefix of `s` that is at most `max_len` bytes long and ends on a char boundary
+fn prefix_at_char_boundary(s: &str, max_len: usize) -> &str {
+    let mut end = max_len.min(s.len());
+    while !s.is_char_boundary(end) {
+        end -= 1;
+    }
+    &s[..end]
+}
+
 /// Extract prefix from string with configurable length
 /// Usage: {{ prefix(value, length=10) }}
 fn prefix_function(args: &std::collections::HashMap<String, Value>) -> Result<Value, tera::Error> {
@@ -165,11 +175,7 @@ fn prefix_function(args: &std::collections::HashMap<String, Value>) -> Result<Va
 
     let length = args.get("length").and_then(|v| v.as_u64()).unwrap_or(10) as usize;
 
-    let prefix = if input.len() > length {
-        &input[..length]
-    } else {
-        &input
-    };
+    let prefix = prefix_at_char_boundary(&input, length);
 
     Ok(Value::String(prefix.to_string()))
 }
@@ -223,7 +229,13 @@ fn format_timestamp_function(
     let dt = DateTime::from_timestamp(timestamp as i64, 0)
         .ok_or_else(|| tera::Error::msg("Invalid timestamp"))?
         .with_timezone(&Utc);
-    let formatted = dt.format(chrono_format).to_string();
+    // An invalid strftime specifier makes chrono's Display fail; report it instead of panicking in to_string()
+    let mut formatted = String::new();
+    write!(formatted, "{}", dt.format(chrono_format)).map_err(|_| {
+        tera::Error::msg(format!(
+            "Invalid timestamp format '{chrono_format}' in format_timestamp function"
+        ))
+    })?;
 
     Ok(Value::String(formatted))
 }
